@@ -40,7 +40,9 @@ static std::unique_ptr<MapT> make(int kind) {
 // rc of get(): 0 found (*gx,*gy), 1 not_found.  get_noexcept() result in *nx,*ny.  *size = size()
 // with a split (verif_map_split) the history is: the first `split` insertions, sort, a lookup, the remaining insertions, sort again
 static unsigned g_split = ~0U;
+static int g_clear = 0;      // with a split: clear() after the first series (the map then holds the second series only)
 ENTRY void verif_map_split(unsigned split) { g_split = split; }
+ENTRY void verif_map_clear(int on) { g_clear = on; }
 ENTRY int verif_map(int kind, const unsigned long* ids, const int* xy, unsigned n, unsigned long probe, int* gx, int* gy, int* nx, int* ny, unsigned long* size) {
     auto map = make(kind);
     const unsigned first = g_split < n ? g_split : n;
@@ -48,6 +50,7 @@ ENTRY int verif_map(int kind, const unsigned long* ids, const int* xy, unsigned 
     map->sort();
     if (first < n) {
         (void)map->get_noexcept(probe);
+        if (g_clear) map->clear();
         for (unsigned i = first; i < n; ++i) map->set(ids[i], Location{xy[2 * i], xy[2 * i + 1]});
         map->sort();
     }
